@@ -187,6 +187,11 @@ Definition c_index (alts : list ty) (i : nat) : Z :=
 Definition choice_index (std : bool) (alts : list ty) (i : nat) : Z :=
   if std then canonical_index alts i else c_index alts i.
 
+(* Which reading the C follows for the CHOICE index.  Until /repo commit b565b4c
+   the generated tables were swapped and the C used [c_index] (cstd std = std);
+   since that fix the C writes the canonical index, whatever [std]. *)
+Definition cstd (std : bool) : bool := true.
+
 (* ---------------- encoder ---------------- *)
 
 Definition pad_key (bits : list bool) : list Z := bits_to_bytes bits.
@@ -227,7 +232,7 @@ Section Std.
         end
     | TChoice alts, VChoice i v' =>
         match enc_alt uper v' alts i with
-        | Some body => Some (nbits (range_bits (zlen alts)) (choice_index std alts i) ++ body)
+        | Some body => Some (nbits (range_bits (zlen alts)) (choice_index (cstd std) alts i) ++ body)
         | None => None
         end
     | TTag _ t', _ => uper t' v
@@ -378,7 +383,7 @@ Section StdDec.
         end
     | TChoice alts =>
         match get_bits (range_bits (zlen alts)) bs with
-        | Some (idx, r) => dec_alt uper_dec (fun i _ => choice_index std alts i =? idx) r alts O
+        | Some (idx, r) => dec_alt uper_dec (fun i _ => choice_index (cstd std) alts i =? idx) r alts O
         | None => None
         end
     | TTag _ t' => uper_dec t' bs
